@@ -69,6 +69,8 @@ type Verifier struct {
 	funcCtxs     map[string]*FuncCtx
 	known        map[string]KnownFinding
 	knownSplit   map[string]string
+	sameAsCache  map[string]*FuncSpec
+	sameAsUsed   map[string]string // interface method key -> implementation key whose contract is used
 }
 
 func NewVerifier() *Verifier {
@@ -78,7 +80,7 @@ func NewVerifier() *Verifier {
 		worlds: map[string]*Sort{}, specConsts: map[string]*Sort{}, aliases: map[string]types.Type{}, pureAs: map[string]*pureFunc{},
 		pureByKey: map[string]*pureFunc{}, globalSorts: map[string]*Sort{"$alloc": SInt}, globalsSpec: map[string][]string{},
 		strLits: map[string]string{}, opaqueCalls: map[string]map[string]int{}, usedLibSpecs: map[string]bool{}, inlined: map[string]bool{},
-		notes: map[string]bool{}, typeTags: map[string]int64{}, funcCtxs: map[string]*FuncCtx{}, ufs: map[string]*ufDef{}, taggedTerms: map[int]*Term{}}
+		notes: map[string]bool{}, typeTags: map[string]int64{}, funcCtxs: map[string]*FuncCtx{}, ufs: map[string]*ufDef{}, taggedTerms: map[int]*Term{}, sameAsUsed: map[string]string{}}
 	v.installPrelude()
 	return v
 }
